@@ -18,6 +18,12 @@ CLAIMED = {
         design="4/C16"),
 }
 
+CLAIMED["C08"] = dict(
+    technique="Coq proofs (soundness by induction over the audit path modulo an explicit hash collision; totality by a trailing-ones measure on the 64-bit index arithmetic; RFC 6962 root/path equality by a checked sweep lifted through a hash-homomorphism lemma) of a Gallina model of astria-merkle; tied to the crate by differential correspondence with real SHA-256",
+    text="Theorems for all proofs/leaves/roots: verification accepts only the leaf, path elements and root it was built for (else an explicit SHA-256 collision), and verifying any decodable (path,index,size) triple never panics; root = RFC 6962 MTH and constructed proof = RFC audit path (bound stated in the theorem). The model (64-bit index arithmetic with explicit panics) is extracted and run against the real crate on exhaustive small trees, random trees up to 2^16 leaves and structured proof mutations; an independent RFC 6962 recursion monitors the implementation directly.",
+    note="Modelled, not verified: SHA-256 (abstract nodeH; the driver instantiates it with a SHA-256 that is cross-checked against every digest the crate prints), leaf hashing and 32-byte chunking of the audit path.",
+    design="4/C08")
+
 NOT_YET = "check under construction in this round; nothing is claimed for it yet (see DESIGN.md section 4 for the plan)"
 
 checks, na = [], []
